@@ -16,7 +16,7 @@ RULE = ('programs = every body tree with <= N operators over the 8 leaves in the
         'registered Python generator function x registration style {inferred, explicit, explicit with a generic *args function, variadic arity} x yielded '
         'value {False, True} [x a dynamic fact next to the Python predicate] [x on a fresh engine / on an engine that was queried before and had an earlier version of the predicates registered]; answers compared with RefProlog run on '
         'the all-Prolog program. For every program/subset additionally one run per event j (entry or resumption of a '
-        'Python predicate) in which the predicate raises a fresh exception object at its j-th event: the consumer must '
+        'Python predicate) in which the predicate raises a fresh exception object - of each of 7 classes (a custom one, TypeError, ValueError, RuntimeError, KeyError, AttributeError, AssertionError), through an inferred-arity and through a variadic registration - at its j-th event: the consumer must '
         'receive that very object. states = distinct answer sequences; transitions = next() calls; non-trivial = at '
         'least one answer')
 ASSUMPTIONS = ['RefProlog is the semantics of the all-compiled program (tied to the compiled engine by C05/C06/C09)',
@@ -29,6 +29,9 @@ def bounds(tier):
 
 class Injected(Exception):
     pass
+
+
+EXC_CLASSES = [Injected, TypeError, ValueError, RuntimeError, KeyError, AttributeError, AssertionError]
 
 
 SOLS = {('z', 0): [], ('y0', 0): [()], ('o', 1): [(C(1),)], ('m', 1): [(C(1),), (C(2),)], ('k', 1): [(C(1),)],
@@ -46,7 +49,8 @@ def make_py(yp, key, style, yv, events):
     def tick():
         events['count'] += 1
         if events['fire'] is not None and events['count'] == events['fire']:
-            events['exc'] = Injected('event %d in %s/%d' % (events['count'], name, n))
+            cls = events.get('cls') or Injected
+            events['exc'] = cls('event %d in %s/%d' % (events['count'], name, n))
             raise events['exc']
 
     def unify_all(pairs):
@@ -113,7 +117,7 @@ def used_preds(clauses):
     return sorted(used)
 
 
-def run_variant(pytext, clauses, goal, pykeys, style, yv, dyn, exp, fire=None, warm=False):
+def run_variant(pytext, clauses, goal, pykeys, style, yv, dyn, exp, fire=None, warm=False, cls=None):
     """one engine: support predicates not in pykeys come from compiled Prolog, the others are
     registered Python functions.  -> (answers, status, exc, events)"""
     yp = impl.YP()
@@ -124,7 +128,7 @@ def run_variant(pytext, clauses, goal, pykeys, style, yv, dyn, exp, fire=None, w
     if rest:
         yp.load_script_from_string(compile_cached(show_program(rest)), fn=impl.SCRIPT_FN)
     yp.load_script_from_string(pytext, fn=impl.SCRIPT_FN)
-    events = {'count': 0, 'fire': fire, 'exc': None, 'args': []}
+    events = {'count': 0, 'fire': fire, 'exc': None, 'args': [], 'cls': cls}
     if warm:
         # the engine has already been asked (the predicates were still unknown), then an earlier
         # version of each Python predicate was registered and asked, and only then the final one
@@ -240,15 +244,19 @@ def check_program(acc, index, clauses, goal, dyn_extra, label):
                                   % (text, list(sub), style, yv, show_term(goal), show_answers(exp), show_answers(gotw), excw or ''), key=key + '|warm')
                 # exception at every event of the python predicates (one style is enough to
                 # enumerate the event points; all styles share the same event sequence)
-                if style == 'inferred' and yv is False:
+                if style in ('inferred', 'variadic') and yv is False:
                     m = events['count']
-                    for j in range(1, m + 1):
+                    # every fault point x the kinds of exception a predicate may raise (an exception of a
+                    # class the engine itself might think of handling must come through all the same)
+                    for j, cls in [(j, c) for j in range(1, m + 1) for c in EXC_CLASSES]:
+                        if style == 'variadic' and cls is Injected:
+                            continue
                         acc.n['evaluations'] += 1
                         acc.n['validated'] += 1
                         acc.n['fault_points'] += 1
-                        c2 = dict(case, fire=j)
+                        c2 = dict(case, fire=j, exc_class=cls.__name__)
                         try:
-                            got2, st2, exc2, ev2 = run_variant(pytext, clauses, goal, sub, style, yv, dyn_extra, exp, fire=j)
+                            got2, st2, exc2, ev2 = run_variant(pytext, clauses, goal, sub, style, yv, dyn_extra, exp, fire=j, cls=cls)
                         except Hang as e:
                             acc.violation('hang', index, c2, str(e), key=key + '|%d' % j)
                             continue
@@ -257,9 +265,9 @@ def check_program(acc, index, clauses, goal, dyn_extra, label):
                             got2 = [anonymize(a, anon_ix) for a in got2]
                         if st2 != 'exception' or exc2 is not ev2['exc']:
                             acc.violation('exception-not-propagated-unchanged', index, c2,
-                                          '%spython predicates %s: exception raised at event %d/%d of the python predicates; '
+                                          '%spython predicates %s (%s): %s raised at event %d/%d of the python predicates; '
                                           'the consumer saw status=%s exception=%r (raised object: %r)'
-                                          % (text, list(sub), j, m, st2, exc2, ev2['exc']), key=key + '|%d' % j)
+                                          % (text, list(sub), style, cls.__name__, j, m, st2, exc2, ev2['exc']), key=key + '|%d|%s' % (j, cls.__name__))
                         elif got2 != exp[:len(got2)]:
                             acc.violation('answers-before-exception-differ', index, c2,
                                           '%s answers before the exception %s are not a prefix of %s' % (text, show_answers(got2), show_answers(exp)), key=key + '|%d' % j)
